@@ -358,18 +358,20 @@ Fixpoint has_prefix (pre s : bytes) : bool :=
   | _ :: _, [] => false
   end.
 
-(* ABIArgumentToTypeString(typeName, components); typeName[5:] cannot panic after HasPrefix *)
-Fixpoint arg_string (typeName : bytes) (components : list fparam) {struct components} : bytes :=
+(* ABIArgumentToTypeString(component.Type, component.Components) for a component (the recursive
+   call); typeName[5:] cannot panic after HasPrefix *)
+Fixpoint component_type_string (p : fparam) : bytes :=
+  match p with
+  | FParam _ typeName _ _ components =>
+      if has_prefix (ascii_bytes "tuple") typeName then
+        [ch_lparen] ++ join [ch_comma] (map component_type_string components) ++ [ch_rparen] ++ skipn 5 typeName
+      else typeName
+  end.
+(* ABIArgumentToTypeString(typeName, components) *)
+Definition ABIArgumentToTypeString (typeName : bytes) (components : list fparam) : bytes :=
   if has_prefix (ascii_bytes "tuple") typeName then
-    [ch_lparen]
-    ++ join [ch_comma] ((fix go (l : list fparam) : list bytes :=
-                           match l with
-                           | [] => []
-                           | FParam _ t _ _ cs :: r => arg_string t cs :: go r
-                           end) components)
-    ++ [ch_rparen] ++ skipn 5 typeName
+    [ch_lparen] ++ join [ch_comma] (map component_type_string components) ++ [ch_rparen] ++ skipn 5 typeName
   else typeName.
-Definition ABIArgumentToTypeString := arg_string.
 
 Definition ABIMethodToSignature (e : entry) : bytes :=
   e_name e ++ [ch_lparen]
